@@ -658,7 +658,8 @@ def check_cfg(run, lst, ob):
         si, k, seq = seq_index[id(tok)]
         nxt = seq[k + 1] if k + 1 < len(seq) else None
         if e[2] == "ft":
-            fall = "fall" if tok.kind in ("ord", "call", "jcc", "icall") \
+            fall = "fall" if tok.kind in ("ord", "call", "jcc", "icall",
+                                          "syscall") \
                 else "nofall"
             ctxs.append(fall)
             ctxs.append(boundary_class(tok, nxt))
@@ -802,7 +803,8 @@ def input_block_ends(case):
                 continue
             nxt = seq[k + 1][0] if contiguous and k + 1 < len(seq) else None
             if nxt is None or nxt.bid != t.bid:
-                res[t.bid] = (t.kind in ("ord", "call", "jcc", "icall"),
+                res[t.bid] = (t.kind in ("ord", "call", "jcc", "icall",
+                                         "syscall"),
                               nxt is not None and nxt.t == "I")
     return res
 
